@@ -75,7 +75,7 @@ PROFILES = {
                 need=['buffer', 'map_async', 'zip'], modes=['async', 'async', 'threaded'], md=0.2, await_all=True,
                 sinks=['native', 'tornado', 'future', 'sync']),
     'C04': dict(pool=SYNC_OPS + ASYNC_LOSSLESS + LOSSY, need=ASYNC_LOSSLESS + LOSSY + ['sink_async'],
-                modes=['async'], md=1.0, refs=True, sinks=['native', 'tornado', 'future', 'sync']),
+                modes=['async'], md=1.0, refs=True, inject_failures=True, sinks=['native', 'tornado', 'future', 'sync']),
     'C05': dict(pool=SYNC_OPS + ASYNC_LOSSLESS + LOSSY, modes=['loopless', 'async', 'async'], md=1.0, refs=True,
                 sinks=['sync', 'native', 'tornado', 'future']),
     'C08': dict(pool=['timed_window', 'partition_t', 'timed_window_unique', 'map', 'filter', 'buffer', 'flatten'],
@@ -480,10 +480,19 @@ class G:
                         if n['id'] in comp and n['op'] == 'sink':
                             n['kind'] = 'sync'
                             n.pop('lat', None)
+        fails = []
+        if pf.get('inject_failures') and self.chance(0.3):
+            # a consumer (or a map_async job) that raises: its element must never be reported complete
+            targets = [n for n in self.graph if (n['op'] == 'sink' and n.get('kind', 'sync') != 'sync') or n['op'] == 'map_async']
+            for _ in range(r.randrange(1, 3)):
+                if targets:
+                    n = self.pick(targets)
+                    fails.append({'node': n['id'], 'call': r.randrange(0, 6),
+                                  'when': self.pick(['pre', 'post']) if n.get('kind') in ('native', 'tornado') else 'pre'})
         sc = {'format': 1, 'family': 'pipeline', 'property': self.prop, 'seed': seed, 'index': index,
               'mode': mode, 'sched_seed': r.randrange(10000), 'tiebreak': self.pick(['fifo', 'fifo', 'lifo', 'seeded']),
               'tiebreak_seed': r.randrange(1000), 'graph': self.graph, 'producers': producers,
-              'faults': {'stalls': [], 'fail': []}}
+              'faults': {'stalls': [], 'fail': fails}}
         return sc
 
 
